@@ -99,13 +99,17 @@ def _is_py2_test(test):
 
 
 class Module(object):
-    def __init__(self, name, text):
+    def __init__(self, name, text, inline=True):
         self.name = name
         self.text = text
         try:
             self.tree = ast.parse(text)
         except SyntaxError as ex:
             raise AnalysisError("module %s does not parse: %s" % (name, ex))
+        self.inlined = None
+        if inline:
+            from .inline import inline_module
+            self.inlined = inline_module(name, self.tree)
         self.imports = {}     # local name -> dotted target
         self.assigns = {}     # module-level name -> value expr (last wins)
         self.top = []         # effective top-level statements (py3 branch)
